@@ -20,7 +20,22 @@ def one(job):
     return sid, pid, p.returncode, keys[:2]
 
 
+def report():
+    ids = sorted(os.listdir(V + '/seeded'))
+    lines = ['| seeded change | property | what it changes | needs | check -> result (first violated clauses) |', '|---|---|---|---|---|']
+    for sid in ids:
+        meta = json.load(open('%s/seeded/%s/meta.json' % (V, sid)))
+        cell = '; '.join('%s -> %s%s' % (r['check'], {0: 'MISSED', 1: 'VIOLATION', 2: 'machinery failure'}.get(r['exit'], r['exit']), (' (' + r['first_clauses'][0] + ')') if r['first_clauses'] else '')
+                         for r in meta.get('selftest', []))
+        lines.append('| %s | %s | %s | %s | %s |' % (sid, meta['property'], str(meta.get('summary', '')).replace('|', '/').replace('\n', ' ')[:200], str(meta.get('needs', '')).replace('|', '/').replace('\n', ' ')[:140], cell))
+    os.makedirs(V + '/selftest', exist_ok=True)
+    open(V + '/selftest/RESULTS.md', 'w').write('\n'.join(lines) + '\n')
+    print(len(ids), 'seeded changes;', sum(1 for sid in ids if json.load(open('%s/seeded/%s/meta.json' % (V, sid))).get('detected_by')), 'detected by at least one check')
+
+
 def main():
+    if sys.argv[1:] == ['--report']:
+        return report()
     ids = sys.argv[1:] or sorted(os.listdir(V + '/seeded'))
     jobs = []
     for sid in ids:
